@@ -223,6 +223,29 @@ def check_case(case, col=None, sync_multiplier=0.4):
         check_secrets(rec, where)
         check_sent(events, where)
         shell_reached = any(e['event'] == 'shell' for e in rec)
+        # the ssh client was started with the options that were asked for
+        argv = [e['data'] for e in rec if e['event'] == 'argv']
+        if argv:
+            a = argv[0]
+            want = ['-l', 'user']
+            if o['quiet']:
+                want.append('-q')
+            if o['port'] is not None:
+                want += ['-p', str(o['port'])]
+            if o['ssh_key'] is True:
+                want.append('-A')
+            for k_, v_ in case['options'].items():
+                want += ['-o', '%s=%s' % (k_, v_)]
+            if not o['check_local_ip']:
+                want.append('-oNoHostAuthenticationForLocalhost=yes')
+            missing = [w for w in want if w not in a]
+            if missing or a[-1] != 'h':
+                raise Violation('ssh-argv', '%s: the ssh client was started with %r; expected options %r and the server last'
+                                % (where, a, want))
+            if not o['quiet'] and '-q' in a:
+                raise Violation('ssh-argv', '%s: -q passed although quiet=False (%r)' % (where, a))
+            if o['port'] is None and '-p' in a:
+                raise Violation('ssh-argv', '%s: -p passed although no port was given (%r)' % (where, a))
         # (3) time bound: every wait is one of the configured timeouts; the longest legitimate chain is
         #     login_timeout + 3 expects + sync (12 x 3 x multiplier) + 3 x prompt-set waits
         bound = 1.5 + 3 * 1.5 + 4 * 3.0 * sync_multiplier + 3 * 0.4 + 5.0
